@@ -414,22 +414,27 @@ impl<T: Send> SchedulerFuture<T> {
 
 impl<T: Send> Drop for SchedulerFuture<T> {
     fn drop(&mut self) {
-        /* -- no need to reschedule manually any more, the queue will wake itself up
-        // Reschedule the queue in the background if we're draining the queue
+        // If this future returned 'pending' while it was draining the queue, the queue is still waiting for it to be polled again.
+        // Nothing else will run the queue when there's no free thread in the pool, so hand it back to the scheduler here.
         if self.draining {
-            {
-                // The core should be in the 'waiting for poll' state
+            let was_waiting_for_us = {
                 let mut core = self.queue.core.lock().expect("JobQueue core lock");
-                debug_assert!(match core.state { QueueState::WaitingForPoll(_) => true, _ => false });
 
-                // Core is now idle
-                core.state = QueueState::Idle;
-            }
+                if core.state == QueueState::WaitingForPoll(self.id) {
+                    // Core is now idle
+                    core.state = QueueState::Idle;
+                    true
+                } else {
+                    // Something else has taken over running the queue
+                    false
+                }
+            };
 
             // Reschedule the queue
-            self.scheduler.core.reschedule_queue(&self.queue, Arc::clone(&self.scheduler.core));
+            if was_waiting_for_us {
+                self.scheduler.core.reschedule_queue(&self.queue, Arc::clone(&self.scheduler.core));
+            }
         }
-        */
     }
 }
 
